@@ -109,6 +109,44 @@ theorem excluded_never_runs (u : IdUniverse) (p : Profile) (i : Str) (hi : i ∈
   have := (List.mem_filter.mp hmem).2
   simp [hi] at this
 
+/-- **the selection is exactly "included and not excluded"** when tests are named with `-t` (no `B001` shorthand on either side): a test runs
+iff it is in the include list and not in the exclude list — nothing else runs and nothing named is dropped -/
+theorem selection_with_includes (u : IdUniverse) (p : Profile) (i : Str) (hne : p.incl ≠ [])
+    (hbi : b001 ∉ p.incl) (hbe : b001 ∉ p.excl) :
+    i ∈ getFilter u p ↔ i ∈ p.incl ∧ i ∉ p.excl := by
+  have e1 : expandB001 u p.incl = p.incl := by simp [expandB001, hbi]
+  have e2 : expandB001 u p.excl = p.excl := by simp [expandB001, hbe]
+  have hemp : p.incl.isEmpty = false := by cases h : p.incl <;> simp_all
+  simp [getFilter, e1, e2, hemp, List.mem_filter]
+
+/-- **without `-t` every known test runs except the excluded ones** -/
+theorem selection_default (u : IdUniverse) (p : Profile) (i : Str) (hincl : p.incl = []) (hbe : b001 ∉ p.excl) :
+    i ∈ getFilter u p ↔ (i ∈ u.plugins ∨ i ∈ u.builtin ∨ i ∈ u.blacklist) ∧ i ∉ p.excl := by
+  have e2 : expandB001 u p.excl = p.excl := by simp [expandB001, hbe]
+  have e1 : expandB001 u ([] : List Str) = [] := by simp [expandB001]
+  simp only [getFilter, hincl, e1, e2, List.mem_filter, List.isEmpty_nil, Bool.not_true, Bool.false_eq_true, if_false, List.mem_append,
+    Bool.not_eq_true', List.contains_eq_mem, decide_eq_false_iff_not, or_assoc]
+
+/-- **skipping more never runs more**: enlarging the exclude list (same include list) can only remove tests from the selection -/
+theorem skip_antitone (u : IdUniverse) (p p' : Profile) (i : Str) (hi : p'.incl = p.incl)
+    (hsub : ∀ x ∈ p.excl, x ∈ p'.excl) (hbe : b001 ∉ p.excl) (hbe' : b001 ∉ p'.excl)
+    (h : i ∈ getFilter u p') : i ∈ getFilter u p := by
+  have e2 : expandB001 u p.excl = p.excl := by simp [expandB001, hbe]
+  have e2' : expandB001 u p'.excl = p'.excl := by simp [expandB001, hbe']
+  simp only [getFilter, e2, e2', hi, List.mem_filter] at h ⊢
+  refine ⟨h.1, ?_⟩
+  have h2 := h.2
+  simp only [Bool.not_eq_true', List.contains_eq_mem, decide_eq_false_iff_not] at h2 ⊢
+  exact fun hx => h2 (hsub _ hx)
+
+/-- the empty profile runs the whole universe -/
+theorem empty_profile_runs_all (u : IdUniverse) : getFilter u {} = u.plugins ++ u.builtin ++ u.blacklist := by
+  simp only [getFilter, expandB001]
+  have ft : ∀ l : List Str, l.filter (fun _ => true) = l := fun l => List.filter_eq_self.mpr (fun _ _ => rfl)
+  simp [ft]
+
+example : getFilter ⟨["B101".toList, "B102".toList], [], ["B301".toList]⟩ { incl := ["B101".toList, "B301".toList], excl := ["B301".toList] } = ["B101".toList] := by decide
+
 /-- an ID that is both included and excluded is rejected -/
 theorem contradiction_rejected (p : Profile) (i : Str) (h1 : i ∈ p.incl) (h2 : i ∈ p.excl) :
     profileRejected p = true := by
